@@ -802,7 +802,8 @@ Json gen_fault(Rng &fr) {
 	if (w < 70) return fault_json("close", at, fr.chance(0.5) ? "EIO" : "ENOSPC", pers, 0);
 	if (w < 80) return fault_json("seek", at, "EIO", pers, 0);
 	if (w < 88) { static const char *e[] = {"ENOENT", "EACCES", "EMFILE"}; return fault_json("open", at, e[fr.below(3)], pers, 0); }
-	if (w < 92) return fault_json("remove", at, "EACCES", pers, 0);
+	if (w < 90) return fault_json("remove", at, "EACCES", pers, 0);
+	if (w < 92) { static const char *e[] = {"ENOSPC", "EACCES", "EXDEV"}; return fault_json("rename", at, e[fr.below(3)], pers, 0); }
 	if (w < 98) { static const char *e[] = {"EIO", "eof", "short"}; return fault_json("read", at, e[fr.below(3)], pers, arg); }
 	return fault_json("truncate", at, fr.chance(0.5) ? "EIO" : "ENOSPC", pers, 0);
 }
@@ -1123,6 +1124,7 @@ void IoHarness::exec_c08(const Json &plan, Env &env) {
 				for (size_t i = 0; i < count_kind[disk::OP_SEEK]; i++) all.push_back(fault_json("seek", (int64_t)i, "EIO", pers, 0));
 				for (size_t i = 0; i < count_kind[disk::OP_OPEN]; i++) for (auto e : {"ENOENT", "EACCES", "EMFILE"}) all.push_back(fault_json("open", (int64_t)i, e, pers, 0));
 				for (size_t i = 0; i < count_kind[disk::OP_REMOVE]; i++) all.push_back(fault_json("remove", (int64_t)i, "EACCES", pers, 0));
+				for (size_t i = 0; i < count_kind[disk::OP_RENAME]; i++) for (auto e : {"ENOSPC", "EACCES"}) all.push_back(fault_json("rename", (int64_t)i, e, pers, 0));
 				for (size_t i = 0; i < count_kind[disk::OP_READ]; i++) for (auto e : {"EIO", "eof", "short"}) all.push_back(fault_json("read", (int64_t)i, e, pers, 77));
 				for (size_t i = 0; i < count_kind[disk::OP_TRUNCATE]; i++) for (auto e : {"EIO", "ENOSPC"}) all.push_back(fault_json("truncate", (int64_t)i, e, pers, 0));
 			}
